@@ -194,8 +194,8 @@ example : okOf (·.1) (eval ex1 env1 [] [] 0) = some 3 := by decide
 example : okOf (·.1) (eval ex1 env1 [] [] 1) = some 3 := by decide
 example : okOf (·.1) (eval ex1 env1 [] [] 2) = some 3 := by decide
 example : lfpL ex1 env1 = [3, 3, 3] := by decide
-/-- the head loop really iterates (2 `WillIterateCycle` steps) … -/
-example : okOf (·.2.iters) (eval ex1 env1 [] [] 0) = some 2 := by decide
+/-- the head loop really iterates (1 `WillIterateCycle` step) … -/
+example : okOf (·.2.iters) (eval ex1 env1 [] [] 0) = some 1 := by decide
 /-- … and all three entry points leave the same memos for the cycle `{0, 1}`. -/
 example : okOf (fun r => (r.2.final.lookup 0, r.2.final.lookup 1)) (eval ex1 env1 [] [] 2)
     = some (some 3, some 3) := by decide
